@@ -49,7 +49,7 @@ def custom_reduce_prod(t, axis):
       Returns:
         The gradient flowing out through the input of this function.
       """
-      is_zero = tf.cast(tf.equal(t, 0), tf.float32)
+      is_zero = tf.cast(tf.equal(t, 0), t.dtype)
       num_zeros = tf.reduce_sum(is_zero, axis=axis)
 
       # If the product contains no zero elements, then simply divide the
@@ -60,7 +60,7 @@ def custom_reduce_prod(t, axis):
       # for that zero element. The gradients for other elements should be
       # zero.
       prod = tf.reduce_prod(t + is_zero, axis=axis)
-      grad1 = tf.cast(tf.equal(num_zeros, 1), tf.float32) * prod
+      grad1 = tf.cast(tf.equal(num_zeros, 1), t.dtype) * prod
       grad1 = tf.expand_dims(grad1, axis=axis) * is_zero
 
       return tf.expand_dims(dy, axis=axis) * (grad0 + grad1)
